@@ -203,16 +203,16 @@ func (t *fnTrans) appendCall(c *ssa.CallCommon, pos token.Pos) Val {
 	if srcIsStr {
 		srcAt = func(j Term) Term { return fmt.Sprintf("(str_at %s %s)", src, j) }
 	} else {
-		srcAt = func(j Term) Term { return fmt.Sprintf("(select (select %s (sbase %s)) (+ (soff %s) %s))", E, src, src, j) }
+		srcAt = func(j Term) Term { return fmt.Sprintf("(select (select %s (sbase %s)) (ix (soff %s) %s))", E, src, src, j) }
 	}
 	rb := fmt.Sprintf("(sbase %s)", r)
 	ro := fmt.Sprintf("(soff %s)", r)
 	// other backing arrays unchanged
 	t.assume(fmt.Sprintf("(forall ((qb Int)) (! (=> (not (= qb %s)) (= (select %s qb) (select %s qb))) :pattern ((select %s qb))))", rb, E2, E, E2))
 	// old prefix preserved (and, in place, everything outside the appended window)
-	t.assume(fmt.Sprintf("(forall ((qi Int)) (! (=> (and (<= 0 qi) (< qi (slen %s))) (= (select (select %s %s) (+ %s qi)) (select (select %s (sbase %s)) (+ (soff %s) qi)))) :pattern ((select (select %s %s) (+ %s qi)))))", s, E2, rb, ro, E, s, s, E2, rb, ro))
+	t.assume(fmt.Sprintf("(forall ((qi Int)) (! (=> (and (<= 0 qi) (< qi (slen %s))) (= (select (select %s %s) (ix %s qi)) (select (select %s (sbase %s)) (ix (soff %s) qi)))) :pattern ((select (select %s %s) (ix %s qi)))))", s, E2, rb, ro, E, s, s, E2, rb, ro))
 	t.assume(fmt.Sprintf("(=> %s (forall ((qi Int)) (! (=> (or (< qi (+ (soff %s) (slen %s))) (>= qi (+ (soff %s) %s))) (= (select (select %s %s) qi) (select (select %s %s) qi))) :pattern ((select (select %s %s) qi)))))", fits, s, s, s, newLen, E2, rb, E, rb, E2, rb))
-	t.assume(fmt.Sprintf("(forall ((qj Int)) (! (=> (and (<= 0 qj) (< qj %s)) (= (select (select %s %s) (+ %s (slen %s) qj)) %s)) :pattern ((select (select %s %s) (+ %s (slen %s) qj)))))", add, E2, rb, ro, s, srcAt("qj"), E2, rb, ro, s))
+	t.assume(fmt.Sprintf("(forall ((qa Int)) (! (=> (and (<= (+ %s (slen %s)) qa) (< qa (+ %s (slen %s) %s))) (= (select (select %s %s) qa) %s)) :pattern ((select (select %s %s) qa))))", ro, s, ro, s, add, E2, rb, srcAt(fmt.Sprintf("(- qa (+ %s (slen %s)))", ro, s)), E2, rb))
 	t.set(ev.Name, E2)
 	return Val{T: r}
 }
@@ -230,7 +230,7 @@ func (t *fnTrans) copyCall(c *ssa.CallCommon, pos token.Pos) Val {
 		srcAt = func(j Term) Term { return fmt.Sprintf("(str_at %s %s)", src, j) }
 	} else {
 		n = fmt.Sprintf("(ite (<= (slen %s) (slen %s)) (slen %s) (slen %s))", d, src, d, src)
-		srcAt = func(j Term) Term { return fmt.Sprintf("(select (select %s (sbase %s)) (+ (soff %s) %s))", E, src, src, j) }
+		srcAt = func(j Term) Term { return fmt.Sprintf("(select (select %s (sbase %s)) (ix (soff %s) %s))", E, src, src, j) }
 	}
 	nv := t.fresh("copied", "Int")
 	t.define(fmt.Sprintf("(= %s %s)", nv, n))
@@ -437,6 +437,9 @@ func (t *fnTrans) resolveMod(item string, env *Env) []modTarget {
 		if _, ok := env.vars[name]; ok {
 			return true
 		}
+		if _, ok := env.prm[name]; ok {
+			return true
+		}
 		if env.local != nil {
 			if _, _, ok := env.local(name); ok {
 				return true
@@ -589,12 +592,87 @@ func (t *fnTrans) applyContract(fc *FuncContract, key string, sig *types.Signatu
 	if fn != nil {
 		short = t.eng.displayName(fn)
 	}
-	for i, c := range fc.Requires {
-		nm := c.Name
-		if nm == "" {
-			nm = fmt.Sprint(i)
+	// ghost parameters of the callee: its clauses hold for every value. Preconditions are checked
+	// for an arbitrary value; postconditions are assumed for the caller's own ghost parameters and
+	// for its parameters of the same type (explicit instantiation).
+	type ginst map[string]bound
+	var insts []ginst
+	if len(fc.Ghosts) > 0 {
+		insts = []ginst{{}}
+		for _, g := range fc.Ghosts {
+			gty := t.eng.resolveType(g.Type, pkg)
+			if gty == nil {
+				t.errorf("ghostparam %s of %s: unknown type %s", g.Name, short, g.Type)
+				continue
+			}
+			env.vars[g.Name] = bound{Val{T: t.freshVal("ghostarg", gty)}, gty}
+			var cands []bound
+			if t.fc != nil && fn != nil {
+				for _, ie := range t.fc.Insts[fn.Name()+"."+g.Name] {
+					le := t.localEnv(t.cur, t.blk)
+					v, vt := le.eval(ie)
+					cands = append(cands, bound{Val{T: le.coerce(v, vt, gty)}, gty})
+				}
+			}
+			if len(cands) == 0 {
+				// default: the caller's own ghost parameters, parameters and the call's arguments of that type
+				for _, gp := range t.ghostParams {
+					if types.Identical(gp.ty, gty) {
+						cands = append(cands, gp)
+					}
+				}
+				if isRefLike(gty) {
+					for _, p := range t.fn.Params {
+						if types.Identical(p.Type(), gty) {
+							cands = append(cands, bound{t.params[p.Name()], gty})
+						}
+					}
+					for i, a := range args {
+						if i < len(argTys) && types.Identical(argTys[i], gty) && a.P == nil {
+							cands = append(cands, bound{Val{T: t.term(a)}, gty})
+						}
+					}
+				}
+			}
+			if len(cands) == 0 {
+				cands = []bound{env.vars[g.Name]}
+			}
+			var next []ginst
+			for _, in := range insts {
+				for _, c := range cands {
+					n := ginst{}
+					for k, v := range in {
+						n[k] = v
+					}
+					n[g.Name] = c
+					next = append(next, n)
+				}
+			}
+			insts = next
 		}
-		t.oblige("requires", short+"."+nm, "precondition of "+short+": "+c.Src, env.boolOf(c.Expr), pos)
+	}
+	checkReq := func(suffix string) {
+		for i, c := range fc.Requires {
+			nm := c.Name
+			if nm == "" {
+				nm = fmt.Sprint(i)
+			}
+			t.oblige("requires", short+"."+nm+suffix, "precondition of "+short+": "+c.Src, env.boolOf(c.Expr), pos)
+		}
+	}
+	if len(insts) == 0 {
+		checkReq("")
+	} else {
+		for k, in := range insts {
+			for name, b := range in {
+				env.vars[name] = b
+			}
+			sfx := ""
+			if k > 0 {
+				sfx = fmt.Sprintf(".inst%d", k)
+			}
+			checkReq(sfx)
+		}
 	}
 	// effects
 	switch {
@@ -655,8 +733,24 @@ func (t *fnTrans) applyContract(fc *FuncContract, key string, sig *types.Signatu
 	} else {
 		bindRes(0, res, resTy)
 	}
-	for _, c := range fc.Ensures {
-		t.assume(post.boolOf(c.Expr))
+	if len(insts) == 0 {
+		for _, c := range fc.Ensures {
+			t.assume(post.boolOf(c.Expr))
+		}
+		return res
+	}
+	seen := map[string]bool{}
+	for _, in := range insts {
+		for k, b := range in {
+			post.vars[k] = b
+		}
+		for _, c := range fc.Ensures {
+			a := post.boolOf(c.Expr)
+			if !seen[a] {
+				seen[a] = true
+				t.assume(a)
+			}
+		}
 	}
 	return res
 }
